@@ -824,8 +824,8 @@ def direct_connect_outputs(block=None):
     wirevectors_to_remove = set()
 
     for net in block.logic:
-        if net.op == '@':
-            continue
+        if net.op in 'r@':
+            continue  # no destination / destination must stay a Register
 
         dest_wire = net.dests[0]
         if dest_wire not in dst_nets or len(dst_nets[dest_wire]) > 1:
